@@ -90,8 +90,9 @@ def hub_measurement_specs(draw, attrs, shape, kinds=None):
     single-attribute measurement is contained in several maximal cliques (of different sizes)."""
     perm = list(draw(st.permutations(list(attrs))))
     edges = []
+    chain = draw(st.booleans())
     for i in range(1, len(perm)):
-        j = draw(st.integers(0, i - 1))
+        j = i - 1 if chain else draw(st.integers(0, i - 1))
         e = [perm[j], perm[i]]
         edges.append(e if draw(st.booleans()) else e[::-1])
     projs = edges + [[a] for a in perm if sum(1 for e in edges if a in e) >= 2 or draw(st.booleans())]
@@ -214,7 +215,7 @@ def est_cases(draw, min_attrs=2, max_attrs=4, max_size=4, cap=256, min_m=0, max_
     dom = draw(gen.domains(min_attrs, max_attrs, min_size, max_size, cap=cap))
     attrs, shape = dom['attrs'], dom['shape']
     meas = draw(measurement_specs(attrs, shape, min_m, max_m, max_proj=3, max_cells=64, kinds=kinds, tiny_noise=tiny_noise)) if max_m > 0 else []
-    if max_m >= 3 and len(attrs) >= 3 and draw(st.integers(0, 3)) == 0:
+    if max_m >= 3 and len(attrs) >= 3 and draw(st.integers(0, 2)) == 0:
         meas = draw(hub_measurement_specs(attrs, shape, kinds))      # tree of pairwise projections (+ singles)
     witness = [draw(st.integers(0, s - 1)) for s in shape]
     case = {'domain': dom, 'meas': meas, 'data_seed': draw(st.integers(0, 2**31 - 1)),
